@@ -241,7 +241,21 @@ let run_table_op (t : table ref) (tp : tops) (text : string) : string =
     let lb = SelectionModel.ub_bisect (nat (n + 1)) (SelectionModel.lower_pred k) [] ks (nat 0) (nat n) in
     let ub = SelectionModel.ub_bisect (nat (n + 1)) (SelectionModel.upper_pred k) [] ks (nat 0) (nat n) in
     if ofnat lb <> ofnat (lower_bound_count ks k) || ofnat ub <> ofnat (upper_bound_count ks k) then "s MODEL-BOUNDS-DIFFER" else
-    Printf.sprintf "s %d %d %d %d" n (keys_digest ks) (ofnat lb) (ofnat ub)
+    (* Selection::Group: the counts RadixSorter passes to groupFunc (GroupModel.group_runs: runs of equal additive hash code of
+       the hash-sorted selection) - int columns only, the hash of a string is not modelled *)
+    let m = int_of_string mask in
+    let g =
+      if m land 8 <> 0 then -1 else begin
+        let sel = project !t false p cols in
+        let out = GroupModel.group_model sel in
+        let rec contiguous seen prev = function
+          | [] -> true
+          | x :: tl -> if prev = Some x then contiguous seen prev tl
+                       else if Stdlib.List.mem x seen then false else contiguous (x :: seen) (Some x) tl in
+        if Stdlib.List.length out <> Stdlib.List.length sel || not (contiguous [] None out) then -2
+        else Stdlib.List.fold_left (fun d c -> fold_digest d (ofnat c)) 0 (GroupModel.group_runs sel)
+      end in
+    Printf.sprintf "s %d %d %d %d g %d" n (keys_digest ks) (ofnat lb) (ofnat ub) g
   | ["D"] -> Stdlib.String.concat " " ("d" :: Stdlib.List.map (fun r -> Stdlib.String.concat "." (Stdlib.List.map string_of_z r)) !t.rows)
   | _ -> "?"
 
